@@ -115,7 +115,8 @@ PROPS = {
              "Theorems on the hand model of resample/smooth metadata: new spacing = spacing*old/new, extent preserved, sigma/spacing "
              "invariance; SciPy is a section variable with stated hypotheses. Values/range/constants/monotone and solve-after-edit are "
              "examined on the implementation.",
-             "models x new shapes (up/down, per-axis) x linear/nearest x scalar/per-axis sigma x unit changes", props="props/C16.v"),
+             "models x new shapes (up/down, per-axis) x linear/nearest x scalar/per-axis sigma x unit changes", props="props/C16.v",
+             api_corr="meta", corr_n=(20, 120)),
     "C17": P([], [], "other",
              "Frame property of a functional model is by construction; the content is observed: random API histories on shared, copied "
              "and deep-copied objects with inputs as list/tuple/F-order/strided/float32, interleaved 2D/3D use and raising calls; "
@@ -134,7 +135,8 @@ PROPS = {
     "C20": P([], [], "proof",
              "Theorems on the hand model of the mesh index arithmetic: point index bijection, coordinates, data order, cell corner "
              "sets, ray connectivity; the implementation is run with a stand-in meshio module and decoded point by point.",
-             "non-cubic shapes, unequal spacings, origins, 0..2 traveltime grids with/without gradients, 1..3 rays", props="props/C20.v"),
+             "non-cubic shapes, unequal spacings, origins, 0..2 traveltime grids with/without gradients, 1..3 rays", props="props/C20.v",
+             api_corr="mesh", corr_n=(12, 60)),
 }
 
 
